@@ -886,6 +886,50 @@ fn main() {
         }
     });
 
+    // ------------------------------------------------------------------------------------- REP
+    // The parser's nesting limit is about NESTING: the same shallow expression written N times side
+    // by side in one template (as N prints, as N elements of one array literal, as N operands of
+    // one `~`) is as well-formed as one of them, for every N. (Seeded change C02-14 never gave the
+    // depth slot of a parsed ternary back: the 39th ternary of a template was "too complex".)
+    {
+        // (name, one expression, its printed value)
+        let units: [(&str, &str, &str); 8] = [
+            ("ternary", "1 if t else 0", "1"),
+            ("ternary-chain", "1 if f else 2 if t else 3", "2"),
+            ("parenthesised", "((1 + 2) * 3)", "9"),
+            ("and-or-not", "t and not f or f", "true"),
+            ("filter-with-argument", "u | default(value=4)", "4"),
+            ("test", "3 is odd", "true"),
+            ("comprehension", "[x for x in [1] if t][0]", "1"),
+            ("subscript-and-slice", "[5, 6][1:][0]", "6"),
+        ];
+        const NS: [usize; 9] = [1, 2, 37, 38, 39, 40, 41, 64, 100];
+        let tera_rep = tera::Tera::default();
+        run.family(
+            Family::new("REP", (units.len() * NS.len()) as u64, &format!("{} shallow expressions x N in {NS:?} repetitions side by side in one template, as N prints, as the N elements of one array literal and as the N operands of one `~`: rendered like one of them, N times", units.len())),
+            |item, acc: &mut Acc| {
+                let (name, unit, val) = units[item as usize / NS.len()];
+                let n = NS[item as usize % NS.len()];
+                let ctx = mccore::vals::context(&[("t", &V::Bool(true)), ("f", &V::Bool(false))]);
+                let prints: String = (0..n).map(|_| format!("{{{{ {unit} }}}}")).collect();
+                let array = format!("{{{{ [{}] | join(sep=\"\") }}}}", vec![format!("({unit})"); n].join(", "));
+                let concat = format!("{{{{ {} }}}}", vec![format!("({unit})"); n].join(" ~ "));
+                let want = val.repeat(n);
+                for (shape, src) in [("prints", prints), ("array-elements", array), ("concat-operands", concat)] {
+                    let out = engine::render_str(&tera_rep, &src, &ctx, false);
+                    if out.ok() != Some(want.as_str()) {
+                        acc.violation(
+                            format!("REP:{name}:{shape}"),
+                            format!("{n} x `{unit}` as {shape} gave {}, expected {:?} repeated {n} times", out.show(), val),
+                            || json!({"template": src, "context": "t = true, f = false, u unbound", "repetitions": n}),
+                        );
+                    }
+                    acc.case(n > 1, out.class());
+                }
+            },
+        );
+    }
+
     // ------------------------------------------------------------------------------------- DOC
     let docs = fam::doc_examples();
     run.family(Family::new("DOC", 1, &format!("{} examples quoted from docs/content/_index.md and MIGRATION.md with the outcome stated there", docs.len())), |_item, acc: &mut Acc| {
